@@ -486,8 +486,8 @@ int main() {
         close(fd[0]);
         int devnull = open("/dev/null", 1);
         if (devnull >= 0) dup2(devnull, 2);
-        // oracle lines of the child are dropped: a terminating call has no result to judge
         std::string r = guarded(id, op, a);
+        std::cout.flush();  // oracle lines of the child
         ssize_t k = write(fd[1], r.data(), r.size());
         (void)k;
         _exit(0);
